@@ -4,7 +4,7 @@ use crate::term::{Ty, UOp, T};
 use dmntk_feel::context::FeelContext;
 use dmntk_feel::values::{Value, Values};
 use dmntk_feel::{FeelNumber, Name, Scope};
-use std::rc::Rc;
+use std::sync::Arc as Rc;
 
 fn gcd(a: i128, b: i128) -> i128 {
   let (mut a, mut b) = (a.abs(), b.abs());
@@ -279,8 +279,8 @@ pub fn num_matches(imp: &FeelNumber, r: &Rat) -> Cmp {
     Some(iv) => {
       if iv == *r {
         Cmp::Same
-      } else if !r.is_decimal() || r.to_decimal_text().is_none() {
-        // inexact division: agree to 30 significant digits: |iv - r| * 10^30 <= |r|
+      } else {
+        // intermediate results are rounded to 34 digits (exactness is C02's subject): agree to 28 significant digits
         match iv.sub(*r) {
           Some(diff) => {
             let lhs = Rat { n: diff.n.abs(), d: diff.d }.mul(Rat::int(10i128.pow(28)));
@@ -295,8 +295,6 @@ pub fn num_matches(imp: &FeelNumber, r: &Rat) -> Cmp {
           }
           None => Cmp::Skipped,
         }
-      } else {
-        Cmp::Different
       }
     }
   }
